@@ -300,7 +300,44 @@ def one_chunks_call(strat, dfmt, order, size, n, rot, src):
   return R(None, needs_pad or order in (">", "!"), (dfmt, order, needs_pad))
 
 
+# ------------------------------------------------------------ calling routes
+from ..routes import routes_agree
+
+
+def route_table():
+  T = OrderedDict()
+  c = lambda v: (lambda: v)
+  for strat in ("struct", "array"):
+    T["chunks." + strat] = (chunks[strat], [("seq", lambda: [1, -2, 300, -400, 5]), ("size", c(3)), ("dfmt", c("h")),
+                                            ("byte_order", c(">")), ("padval", c(7))], lambda g: [bytes(b).hex() for b in g])
+  def wav(*a, **k):
+    path = os.path.join(tmpdir(), "routes.wav")
+    w = wave.open(path, "wb")
+    w.setnchannels(2); w.setsampwidth(2); w.setframerate(8000)
+    w.writeframes(bytes(range(40)))
+    w.close()
+    k = dict(k)
+    if "wave_file" in k: k["wave_file"] = path
+    else: a = (path,) + tuple(a[1:])
+    ws = WavStream(*a, **k)
+    return [ws.rate, ws.channels, ws.bits] + list(ws)
+  T["WavStream"] = (wav, [("wave_file", c("PATH")), ("keep", c(True))], lambda v: [repr(e) for e in v])
+  return T
+
+
+def gen_routes(run):
+  for name in route_table():
+    yield (name,)
+
+
+def run_routes(case):
+  f, spec, canon = route_table()[case[0]]
+  return routes_agree(case[0], f, spec, canon)
+
+
 KINDS = OrderedDict([
   ("wav", Kind(gen_wav, run_wav, chunk=4, rule="WAV files x reading configurations; non-trivial: a sample with the sign bit set")),
   ("chunks", Kind(gen_chunks, run_chunks, chunk=200, rule="chunks configurations; non-trivial: padding needed or non-native byte order")),
+  ("call-routes", Kind(gen_routes, run_routes, chunk=1,
+                       rule="each function with every documented parameter set: all positional / all keyword / every split must agree")),
 ])
